@@ -3,7 +3,7 @@
    instruction whose memorySize function is calcMemSize(offset, length):
        memSize, overflow := bigUint64(operation.memorySize(stack))      -> errGasUintOverflow
        memorySize, overflow = math.SafeMul(toWordSize(memSize), 32)     -> errGasUintOverflow
-       cost, err = operation.gasCost(..., mem, memorySize); err != nil  -> ErrOutOfGas
+       cost, err = operation.gasCost(..., mem, memorySize); err != nil || !contract.UseGas(cost) -> ErrOutOfGas
        if memorySize > 0 { mem.Resize(memorySize) }
    followed by the instruction body on the resized memory.  The [run_*] functions compose this
    with the instruction bodies of OpsModel.v; they take ANY 256-bit operands. *)
@@ -12,13 +12,15 @@ From AQ Require Import Evm.OpsModel.
 Import ListNotations.
 Local Open Scope Z_scope.
 
-(* returns (resized memory, dynamic gas of the step, new lastGasCost) *)
-Definition prepare_mem (mem : list Z) (last : Z) (gasfn : Z -> Z -> Z -> res (Z * Z)) (off len : Z)
+(* avail = contract.Gas before the step; returns (resized memory, dynamic gas of the step, new lastGasCost) *)
+Definition prepare_mem (avail : Z) (mem : list Z) (last : Z) (gasfn : Z -> Z -> Z -> res (Z * Z)) (off len : Z)
   : res (list Z * Z * Z) :=
   match run_memorySize (calcMemSize off len) with
   | Ok ms =>
       match gasfn (blen mem) last ms with
-      | Ok (g, last') => Ok (if ms >? 0 then mem_resize mem ms else mem, g, last')
+      | Ok (g, last') =>
+          if avail <? g then Err ErrOutOfGas          (* contract.UseGas(cost) fails: nothing is resized *)
+          else Ok (if ms >? 0 then mem_resize mem ms else mem, g, last')
       | Err _ => Err ErrOutOfGas
       | Panic => Panic
       end
@@ -27,37 +29,37 @@ Definition prepare_mem (mem : list Z) (last : Z) (gasfn : Z -> Z -> Z -> res (Z 
   end.
 
 (* MLOAD: (value pushed, memory, gas, lastGasCost) *)
-Definition run_MLOAD (mem : list Z) (last off : Z) : res (Z * list Z * Z * Z) :=
-  match prepare_mem mem last gasMLoad off 32 with
+Definition run_MLOAD (avail : Z) (mem : list Z) (last off : Z) : res (Z * list Z * Z * Z) :=
+  match prepare_mem avail mem last gasMLoad off 32 with
   | Ok (m', g, l') => match op_MLOAD m' off with Ok v => Ok (v, m', g, l') | Err e => Err e | Panic => Panic end
   | Err e => Err e | Panic => Panic end.
 
 Definition lift3 (r : res (list Z)) (g l' : Z) : res (list Z * Z * Z) :=
   match r with Ok m => Ok (m, g, l') | Err e => Err e | Panic => Panic end.
 
-Definition run_MSTORE (mem : list Z) (last off v : Z) : res (list Z * Z * Z) :=
-  match prepare_mem mem last gasMStore off 32 with
+Definition run_MSTORE (avail : Z) (mem : list Z) (last off v : Z) : res (list Z * Z * Z) :=
+  match prepare_mem avail mem last gasMStore off 32 with
   | Ok (m', g, l') => lift3 (op_MSTORE m' off v) g l' | Err e => Err e | Panic => Panic end.
-Definition run_MSTORE8 (mem : list Z) (last off v : Z) : res (list Z * Z * Z) :=
-  match prepare_mem mem last gasMStore8 off 1 with
+Definition run_MSTORE8 (avail : Z) (mem : list Z) (last off v : Z) : res (list Z * Z * Z) :=
+  match prepare_mem avail mem last gasMStore8 off 1 with
   | Ok (m', g, l') => lift3 (op_MSTORE8 m' off v) g l' | Err e => Err e | Panic => Panic end.
 (* CALLDATACOPY / CODECOPY (data = call data / code; both use the same gas function shape) *)
-Definition run_DATACOPY (mem : list Z) (last : Z) (data : list Z) (memOff dataOff len : Z) : res (list Z * Z * Z) :=
-  match prepare_mem mem last (fun ml la ms => gasCallDataCopy ml la ms len) memOff len with
+Definition run_DATACOPY (avail : Z) (mem : list Z) (last : Z) (data : list Z) (memOff dataOff len : Z) : res (list Z * Z * Z) :=
+  match prepare_mem avail mem last (fun ml la ms => gasCallDataCopy ml la ms len) memOff len with
   | Ok (m', g, l') => lift3 (op_DATACOPY m' data memOff dataOff len) g l' | Err e => Err e | Panic => Panic end.
-Definition run_RETURNDATACOPY (mem : list Z) (last : Z) (rd : list Z) (memOff dataOff len : Z) : res (list Z * Z * Z) :=
-  match prepare_mem mem last (fun ml la ms => gasReturnDataCopy ml la ms len) memOff len with
+Definition run_RETURNDATACOPY (avail : Z) (mem : list Z) (last : Z) (rd : list Z) (memOff dataOff len : Z) : res (list Z * Z * Z) :=
+  match prepare_mem avail mem last (fun ml la ms => gasReturnDataCopy ml la ms len) memOff len with
   | Ok (m', g, l') => lift3 (op_RETURNDATACOPY m' rd memOff dataOff len) g l' | Err e => Err e | Panic => Panic end.
 (* SHA3 with hash H: (value, memory, gas, lastGasCost) *)
-Definition run_SHA3 (H : list Z -> list Z) (mem : list Z) (last off len : Z) : res (Z * list Z * Z * Z) :=
-  match prepare_mem mem last (fun ml la ms => gasSha3 ml la ms len) off len with
+Definition run_SHA3 (H : list Z -> list Z) (avail : Z) (mem : list Z) (last off len : Z) : res (Z * list Z * Z * Z) :=
+  match prepare_mem avail mem last (fun ml la ms => gasSha3 ml la ms len) off len with
   | Ok (m', g, l') => match op_SHA3_H H m' off len with Ok v => Ok (v, m', g, l') | Err e => Err e | Panic => Panic end
   | Err e => Err e | Panic => Panic end.
 (* the byte range a LOGn / RETURN / REVERT / CREATE / CALL input reads: (data, memory, gas, lastGasCost) *)
-Definition run_RANGE (gasfn : Z -> Z -> Z -> res (Z * Z)) (mem : list Z) (last off len : Z) : res (list Z * list Z * Z * Z) :=
-  match prepare_mem mem last gasfn off len with
+Definition run_RANGE (gasfn : Z -> Z -> Z -> res (Z * Z)) (avail : Z) (mem : list Z) (last off len : Z) : res (list Z * list Z * Z * Z) :=
+  match prepare_mem avail mem last gasfn off len with
   | Ok (m', g, l') =>
       match mem_get m' (big_Int64 off) (big_Int64 len) with Ok d => Ok (d, m', g, l') | Err e => Err e | Panic => Panic end
   | Err e => Err e | Panic => Panic end.
 Definition run_RETURN := run_RANGE gasReturn.
-Definition run_LOG (n : Z) (mem : list Z) (last off len : Z) := run_RANGE (fun ml la ms => gasLog n ml la ms len) mem last off len.
+Definition run_LOG (n : Z) (avail : Z) (mem : list Z) (last off len : Z) := run_RANGE (fun ml la ms => gasLog n ml la ms len) avail mem last off len.
